@@ -496,7 +496,7 @@ impl Transport for MmioTransport<'_> {
         );
         assert!(offset.is_multiple_of(align_of::<T>()));
 
-        if self.config_space.len() < offset + size_of::<T>() {
+        if offset > self.config_space.len() || self.config_space.len() - offset < size_of::<T>() {
             Err(Error::ConfigSpaceTooSmall)
         } else {
             // SAFETY: The caller of `MmioTransport::new` guaranteed that the header pointer was
@@ -526,7 +526,7 @@ impl Transport for MmioTransport<'_> {
         );
         assert!(offset.is_multiple_of(align_of::<T>()));
 
-        if self.config_space.len() < offset + size_of::<T>() {
+        if offset > self.config_space.len() || self.config_space.len() - offset < size_of::<T>() {
             Err(Error::ConfigSpaceTooSmall)
         } else {
             // SAFETY: The caller of `MmioTransport::new` guaranteed that the header pointer was
